@@ -345,7 +345,18 @@ def judge_adiabatic(rec, case, th, ch, s, call, mcase, Q, suffix, where, H0, Hne
         phase_kept = tagged or s.phase == case['phase']
         if not phase_kept: rec.hit('adiabatic:phase-flipped-by-H-setter'); rec.refuse('the enthalpy setter moved the single-phase stream to the other phase (temperature change not judged)')
         else:
-            Cmin = min(C0m, C1) * (1 - T_BRACKET); Cmax = max(C0m, C1) * (1 + T_BRACKET)
+            # the mean heat capacity lies between the smallest and the largest value along the way: the two ends, and for a large temperature change (where the heat capacity
+            # need not be monotonic, e.g. a liquid cooled by 100 K and more) seven interior temperatures of the reacted composition
+            Cs = [C0m, C1]
+            if abs(T1 - T0) > 30:
+                try:
+                    tw_ = s.copy()
+                    for f_ in (0.125, 0.25, 0.375, 0.5, 0.625, 0.75, 0.875):
+                        tw_.T = T0 + f_ * (T1 - T0); c_ = tw_.C
+                        if c_ == c_ and c_ > 0: Cs.append(c_)
+                    rec.hit('adiabatic:outlet-T/heat-capacity-sampled-along-the-way')
+                except Exception: pass
+            Cmin = min(Cs) * (1 - T_BRACKET); Cmax = max(Cs) * (1 + T_BRACKET)
             eps = 4e-6 + 1e-11 * abs(Hnet0) / Cmin
             lo, hi = (needed / Cmax, needed / Cmin) if needed >= 0 else (needed / Cmin, needed / Cmax)
             dT = T1 - T0
